@@ -220,6 +220,232 @@ theorem span_reparse_selection_set (fl : Flags) (s : Text) (d : Document) (h : p
       · rw [checkAll_cons]
         exact ⟨_, _, (check_tok ..).2 ⟨_, rfl, hte, rfl⟩, by rw [checkAll_nil]⟩
 
+/-! ### directives and arguments: inside the field `a` -/
+
+private def nmA (x y : Nat) : Name := ⟨[97], some (x, y)⟩
+private def tokA : Tok := ⟨.name, 2, 3, [97]⟩
+
+private theorem nameV_a (fl : Flags) (hnl : fl.noLocation = false) (l : Tok) (rest : List Tok) :
+    (nameV (nmA 2 3)).check fl l (tokA :: rest) = some (tokA, rest) := by
+  simp only [nameV, nmA]
+  rw [check_node]
+  refine ⟨_, _, rfl, ?_, by rw [locOf_eq fl hnl]; rfl⟩
+  rw [checkAll_cons]
+  exact ⟨_, _, (check_tok ..).2 ⟨_, rfl, rfl, rfl⟩, by rw [checkAll_nil]⟩
+
+theorem wfDirective_weaken (c : Bool) (dir : Directive) (h : wfDirective c dir = true) : wfDirective false dir = true := by
+  simp only [wfDirective, List.all_eq_true] at h ⊢
+  intro x hx
+  exact wfValue_of_const c _ (h x hx)
+
+/-- DIRECTIVES (of fields, fragment spreads, inline fragments, operations, fragments, variable definitions and of every
+    type-system position): the spanned text `@name(args)` put behind a field name, `{ a σ⏎}`, is accepted by `parse`
+    under the same flags, and the result is the shorthand query `{ a @… }` whose field carries exactly that directive,
+    moved to offset 4. (`c` = the `Const`-ness of the position the directive came from; any directive is admissible
+    on a field.) -/
+theorem span_reparse_directive (fl : Flags) (s : Text) (d : Document) (h : parseText fl s = some d) :
+    ∀ x ∈ d.definitions, ∀ dir : Directive, Item.Sub (directiveV dir) (definitionV x) → ∀ c, wfDirective c dir = true →
+      ∀ a b, dir.loc = some (a, b) →
+      a ≤ b ∧ b ≤ s.length ∧
+      parseText fl ([123, 32, 97, 32] ++ slice s a b ++ [10, 125]) =
+        some (shorthandDoc [.field none (nmA 2 3) [] [(dir.mapLoc (locDown a)).mapLoc (locUp 4)] none (some (2, b - a + 4))]
+          (b - a + 6)) := by
+  intro x hx dir hs c hwf a b hloc
+  have hnode : directiveV dir = .node (some (a, b)) (p .atSign :: nameV dir.name :: argumentsV dir.arguments) := by
+    rw [← hloc]; rfl
+  obtain ⟨h1, h2, hnl, hlen, seg, htl, hc⟩ := doc_tiles fl s d h x hx _ hs a b _ hnode
+  refine ⟨h1, h2, ?_⟩
+  rw [← directiveV_down] at hc
+  have hnode0 : directiveV (dir.mapLoc (locDown a)) = .node (some (a - a, b - a))
+      (p .atSign :: nameV (dir.mapLoc (locDown a)).name :: argumentsV (dir.mapLoc (locDown a)).arguments) := by
+    simp only [directiveV, Directive.mapLoc, hloc, locDown]
+  rw [hnode0] at hc
+  obtain ⟨f, tl, l1, hseg, hl0, hck⟩ := ctx_check fl _ _ seg (b - a)
+    (by rw [← hnode0]; exact directiveV_solid _) (by rw [← hnode0]; exact directiveV_plain _) hc
+  have hstop : l1.stop = b - a := by
+    rw [locOf_eq fl hnl] at hl0
+    simp only [Option.some.injEq, Prod.mk.injEq] at hl0
+    exact hl0.2.symm
+  apply (parse_text_result fl _ _).2
+  refine ⟨_, tiles_field hlen htl, ?_, ?_⟩
+  · simp [shorthandDoc, wfDocument, wfDefinition, wfOperation, wfDirectives, wfSelectionSet, wfSelections, wfSelection,
+      wfOptSelectionSet, wfDirective_mapLoc, wfDirective_weaken c dir hwf, isTypeSystem,
+      Generated.ParserTables.operationTypeTuple, K.query]
+  · have hm := matches_shorthand fl hnl
+      [.field none (nmA 2 3) [] [(dir.mapLoc (locDown a)).mapLoc (locUp 4)] none (some (2, b - a + 4))]
+      (tokA :: seg.map (Tok.up 4)) (b - a + 6) (b - a + 5) (l1.up 4) ?_
+    · simpa [tokA] using hm
+    intro l rest2
+    simp only [selectionsV]
+    rw [checkAll_cons]
+    refine ⟨_, _, ?_, by rw [checkAll_nil]⟩
+    have hv : selectionV (.field none (nmA 2 3) [] [(dir.mapLoc (locDown a)).mapLoc (locUp 4)] none (some (2, b - a + 4))) =
+        .node (some (2, b - a + 4)) [nameV (nmA 2 3), directiveV ((dir.mapLoc (locDown a)).mapLoc (locUp 4))] := by
+      simp [selectionV, argumentsV, groupV, directivesV, optSelectionSetV]
+    rw [hv, check_node]
+    refine ⟨tokA, _, rfl, ?_, by rw [locOf_eq fl hnl]; simp [tokA, Tok.up, hstop]⟩
+    rw [List.cons_append, checkAll_cons]
+    refine ⟨_, _, nameV_a fl hnl l _, ?_⟩
+    rw [checkAll_cons]
+    refine ⟨_, _, ?_, by rw [checkAll_nil]⟩
+    have := hck 4 tokA rest2
+    rw [← hnode0, ← directiveV_up] at this
+    exact this
+
+theorem wfArgument_weaken (c : Bool) (arg : Argument) (h : wfArgument c arg = true) : wfArgument false arg = true :=
+  wfValue_of_const c _ h
+
+/-- ARGUMENTS (of fields and of directives, at any depth): the spanned text `name: value` put inside the parentheses of a
+    field, `{ a(σ⏎)}`, is accepted by `parse` under the same flags, and the result is the shorthand query `{ a(…) }` whose
+    field carries exactly that argument, moved to offset 4. -/
+theorem span_reparse_argument (fl : Flags) (s : Text) (d : Document) (h : parseText fl s = some d) :
+    ∀ x ∈ d.definitions, ∀ arg : Argument, Item.Sub (argumentV arg) (definitionV x) → ∀ c, wfArgument c arg = true →
+      ∀ a b, arg.loc = some (a, b) →
+      a ≤ b ∧ b ≤ s.length ∧
+      parseText fl ([123, 32, 97, 40] ++ slice s a b ++ [10, 41, 125]) =
+        some (shorthandDoc [.field none (nmA 2 3) [(arg.mapLoc (locDown a)).mapLoc (locUp 4)] [] none (some (2, b - a + 6))]
+          (b - a + 7)) := by
+  intro x hx arg hs c hwf a b hloc
+  have hnode : argumentV arg = .node (some (a, b)) [nameV arg.name, p .colon, valueV arg.value] := by
+    rw [← hloc]; rfl
+  obtain ⟨h1, h2, hnl, hlen, seg, htl, hc⟩ := doc_tiles fl s d h x hx _ hs a b _ hnode
+  refine ⟨h1, h2, ?_⟩
+  rw [← argumentV_down] at hc
+  have hnode0 : argumentV (arg.mapLoc (locDown a)) = .node (some (a - a, b - a))
+      [nameV (arg.mapLoc (locDown a)).name, p .colon, valueV (arg.mapLoc (locDown a)).value] := by
+    simp only [argumentV, Argument.mapLoc, hloc, locDown]
+  rw [hnode0] at hc
+  obtain ⟨f, tl, l1, hseg, hl0, hck⟩ := ctx_check fl _ _ seg (b - a)
+    (by rw [← hnode0]; exact argumentV_solid _) (by rw [← hnode0]; exact argumentV_plain _) hc
+  apply (parse_text_result fl _ _).2
+  refine ⟨_, tiles_args hlen htl, ?_, ?_⟩
+  · simp [shorthandDoc, wfDocument, wfDefinition, wfOperation, wfDirectives, wfSelectionSet, wfSelections, wfSelection,
+      wfOptSelectionSet, wfArgument_mapLoc, wfArgument_weaken c arg hwf, isTypeSystem,
+      Generated.ParserTables.operationTypeTuple, K.query]
+  · have hm := matches_shorthand fl hnl
+      [.field none (nmA 2 3) [(arg.mapLoc (locDown a)).mapLoc (locUp 4)] [] none (some (2, b - a + 6))]
+      (tokA :: ⟨.parenL, 3, 4, [40]⟩ :: (seg.map (Tok.up 4) ++ [⟨.parenR, b - a + 5, b - a + 6, [41]⟩]))
+      (b - a + 7) (b - a + 6) ⟨.parenR, b - a + 5, b - a + 6, [41]⟩ ?_
+    · simpa [tokA] using hm
+    intro l rest2
+    simp only [selectionsV]
+    rw [checkAll_cons]
+    refine ⟨_, _, ?_, by rw [checkAll_nil]⟩
+    have hv : selectionV (.field none (nmA 2 3) [(arg.mapLoc (locDown a)).mapLoc (locUp 4)] [] none (some (2, b - a + 6))) =
+        .node (some (2, b - a + 6)) [nameV (nmA 2 3), p .parenL, argumentV ((arg.mapLoc (locDown a)).mapLoc (locUp 4)),
+          p .parenR] := by
+      simp [selectionV, argumentsV, groupV, directivesV, optSelectionSetV]
+    rw [hv, check_node]
+    refine ⟨tokA, _, rfl, ?_, by rw [locOf_eq fl hnl]; rfl⟩
+    rw [List.cons_append, checkAll_cons]
+    refine ⟨_, _, nameV_a fl hnl l _, ?_⟩
+    rw [List.cons_append, checkAll_cons]
+    refine ⟨_, _, (check_tok ..).2 ⟨_, rfl, rfl, rfl⟩, ?_⟩
+    rw [checkAll_cons]
+    refine ⟨l1.up 4, [⟨.parenR, b - a + 5, b - a + 6, [41]⟩] ++ rest2, ?_, ?_⟩
+    · have := hck 4 ⟨.parenL, 3, 4, [40]⟩ ([⟨.parenR, b - a + 5, b - a + 6, [41]⟩] ++ rest2)
+      rw [← hnode0, ← argumentV_up] at this
+      rw [List.append_assoc]
+      exact this
+    · rw [checkAll_cons]
+      exact ⟨_, rest2, (check_tok ..).2 ⟨_, rfl, rfl, rfl⟩, by rw [checkAll_nil]⟩
+
+/-! ### descriptions: in front of `scalar A` -/
+
+/-- DESCRIPTIONS (of type definitions, field definitions, argument definitions, enum values, directive definitions; quoted
+    or block strings — indeed every string node): under flags that allow the type system, the spanned text followed by
+    `⏎scalar A` is accepted by `parse`, and the result is the one-definition document `scalar A` whose description is
+    exactly that string node, moved to offset 0. -/
+theorem span_reparse_description (fl : Flags) (hts : fl.allowTypeSystem = true) (s : Text) (d : Document)
+    (h : parseText fl s = some d) :
+    ∀ x ∈ d.definitions, ∀ sv : StringValue, Item.Sub (stringV sv) (definitionV x) → ∀ a b, sv.loc = some (a, b) →
+      a ≤ b ∧ b ≤ s.length ∧
+      parseText fl (slice s a b ++ 10 :: [115, 99, 97, 108, 97, 114, 32, 65]) =
+        some ⟨[.scalarTypeDefinition (some (sv.mapLoc (locDown a))) ⟨[65], some (b - a + 8, b - a + 9)⟩ []
+          (some (0, b - a + 9))], some (0, b - a + 9)⟩ := by
+  intro x hx sv hs a b hloc
+  have hnode : stringV sv = .node (some (a, b)) [.tok (if sv.block then .blockString else .string) sv.value] := by
+    rw [← hloc]; rfl
+  obtain ⟨h1, h2, hnl, hlen, seg, htl, hc⟩ := doc_tiles fl s d h x hx _ hs a b _ hnode
+  refine ⟨h1, h2, ?_⟩
+  rw [← stringV_down] at hc
+  -- `SOF string EOF`: the segment is the one string token, spanning the whole slice
+  rw [checkAll_cons] at hc
+  obtain ⟨l0, ts0, h0, hc⟩ := hc
+  rw [check_tok] at h0
+  obtain ⟨t0, e0, _, rfl⟩ := h0
+  simp only [List.cons.injEq] at e0
+  obtain ⟨rfl, rfl⟩ := e0
+  rw [checkAll_cons] at hc
+  obtain ⟨l1, ts1, hsv, hc⟩ := hc
+  rw [checkAll_cons] at hc
+  obtain ⟨l2, ts2, h2', hc⟩ := hc
+  rw [checkAll_nil] at hc
+  rw [check_tok] at h2'
+  obtain ⟨te, rfl, hte, rfl⟩ := h2'
+  simp only [Prod.mk.injEq] at hc
+  obtain ⟨rfl, rfl⟩ := hc
+  have hsv' := hsv
+  simp only [stringV] at hsv'
+  rw [check_node] at hsv'
+  obtain ⟨f, tl, e, hall, hl0⟩ := hsv'
+  rw [checkAll_cons] at hall
+  obtain ⟨l3, ts3, h3, hall⟩ := hall
+  rw [checkAll_nil] at hall
+  rw [check_tok] at h3
+  obtain ⟨t, e3, _, rfl⟩ := h3
+  simp only [Prod.mk.injEq] at hall
+  obtain ⟨rfl, rfl⟩ := hall
+  rw [e3] at e
+  have hseg : seg = [l1] := by
+    have : seg ++ [eofT (b - a)] = [l1] ++ [eofT (b - a)] := by simpa using e3
+    exact List.append_cancel_right this
+  subst hseg
+  have hstart : l1.start = 0 := by
+    have : (sv.mapLoc (locDown a)).loc = some (a - a, b - a) := by simp [StringValue.mapLoc, hloc, locDown]
+    rw [this, locOf_eq fl hnl] at hl0
+    simp only [List.cons.injEq] at e
+    rw [← e.1] at hl0
+    simp only [Option.some.injEq, Prod.mk.injEq] at hl0
+    omega
+  apply (parse_text_result fl _ _).2
+  refine ⟨_, tiles_scalar hlen htl, ?_, (matches_iff _ _ _).2 ⟨eofT (b - a + 9), ?_⟩⟩
+  · simp [wfDocument, wfDefinition, wfDirectives, hts]
+  · rw [checkAll_cons]
+    refine ⟨eofT (b - a + 9), [], ?_, by rw [checkAll_nil]⟩
+    simp only [documentV, List.map_cons, List.map_nil, definitionV, descV, optV, directivesV, List.cons_append,
+      List.nil_append]
+    rw [check_node]
+    refine ⟨_, _, rfl, ?_, by rw [locOf_eq fl hnl]; rfl⟩
+    rw [checkAll_cons]
+    refine ⟨_, _, (check_tok ..).2 ⟨_, rfl, rfl, rfl⟩, ?_⟩
+    rw [checkAll_cons]
+    refine ⟨⟨.name, b - a + 8, b - a + 9, [65]⟩, [eofT (b - a + 9)], ?_, ?_⟩
+    · rw [check_node]
+      refine ⟨l1, _, rfl, ?_, by rw [locOf_eq fl hnl, hstart]⟩
+      rw [checkAll_cons]
+      obtain ⟨pre, hpre, hfree⟩ := check_free fl _ _ _ _ _ (stringV_solid _) (stringV_plain _) hsv
+      have hp1 : pre = [l1] := by
+        have : [l1] ++ [eofT (b - a)] = pre ++ [eofT (b - a)] := by simpa using hpre
+        exact (List.append_cancel_right this).symm
+      subst hp1
+      have h5 := check_last_indep fl _ _ _ _ _ (stringV_solid _)
+        (hfree [⟨.name, b - a + 1, b - a + 7, [115, 99, 97, 108, 97, 114]⟩, ⟨.name, b - a + 8, b - a + 9, [65]⟩,
+          eofT (b - a + 9)]) Lex.sofTok
+      rw [if_neg (by simp)] at h5
+      refine ⟨_, _, h5, ?_⟩
+      rw [checkAll_cons]
+      refine ⟨_, _, (check_tok ..).2 ⟨_, rfl, rfl, rfl⟩, ?_⟩
+      rw [checkAll_cons]
+      refine ⟨_, _, ?_, by rw [checkAll_nil]⟩
+      simp only [nameV]
+      rw [check_node]
+      refine ⟨_, _, rfl, ?_, by rw [locOf_eq fl hnl]⟩
+      rw [checkAll_cons]
+      exact ⟨_, _, (check_tok ..).2 ⟨_, rfl, rfl, rfl⟩, by rw [checkAll_nil]⟩
+    · rw [checkAll_cons]
+      exact ⟨_, _, (check_tok ..).2 ⟨_, rfl, rfl, rfl⟩, by rw [checkAll_nil]⟩
+
 /-! ### non-vacuity: `{a(x:[1]) @d ...F}` -/
 private def cdoc : Text := [123, 97, 40, 120, 58, 91, 49, 93, 41, 32, 64, 100, 32, 46, 46, 46, 70, 125]
 
@@ -232,5 +458,31 @@ example : (parseText {} ([123, 32] ++ slice cdoc 1 12 ++ [10, 125])).map
 /-- the whole selection set (0,18) parses as it stands -/
 example : (parseText {} (slice cdoc 0 18)).map (fun d => (d.definitions.map Definition.loc, d.loc)) =
     some ([some (0, 18)], some (0, 18)) := by decide
+
+/-- the directive `@d` spans (10,12): `{ a @d⏎}` parses to `{ a @d }`, the directive at (4,6), the field at (2,6) -/
+example : (parseText {} ([123, 32, 97, 32] ++ slice cdoc 10 12 ++ [10, 125])).map
+    (fun d => d.definitions.map (fun x => match x with
+      | .operation o => (match o.selectionSet with
+        | .mk [.field _ _ _ dirs _ l] _ => (dirs.map (·.loc), l)
+        | _ => ([], none))
+      | _ => ([], none))) = some [([some (4, 6)], some (2, 6))] := by decide
+
+/-- the argument `x:[1]` spans (3,8): `{ a(x:[1]⏎)}` parses to `{ a(x:[1]) }`, the argument at (4,9), the field at (2,11) -/
+example : (parseText {} ([123, 32, 97, 40] ++ slice cdoc 3 8 ++ [10, 41, 125])).map
+    (fun d => d.definitions.map (fun x => match x with
+      | .operation o => (match o.selectionSet with
+        | .mk [.field _ _ args _ _ l] _ => (args.map (·.loc), l)
+        | _ => ([], none))
+      | _ => ([], none))) = some [([some (4, 9)], some (2, 11))] := by decide
+
+/-- `type T{"d" f:I}`: the description `"d"` of the field `f` spans (7,10); `"d"⏎scalar A` parses to the scalar `A`
+    with that description at (0,3) -/
+private def tsdoc : Text := [116, 121, 112, 101, 32, 84, 123, 34, 100, 34, 32, 102, 58, 73, 125]
+private def tsFl : Flags := { allowTypeSystem := true }
+example : (parseText tsFl tsdoc).isSome = true := by decide
+example : (parseText tsFl (slice tsdoc 7 10 ++ 10 :: [115, 99, 97, 108, 97, 114, 32, 65])).map
+    (fun d => d.definitions.map (fun x => match x with
+      | .scalarTypeDefinition (some sv) n _ l => (sv.loc, sv.value, n.loc, l)
+      | _ => (none, [], none, none))) = some [(some (0, 3), [100], some (11, 12), some (0, 12))] := by rfl
 
 end PyGql.Props.C02
